@@ -65,7 +65,7 @@ unit("str.kmp.next.safe",
 # ------------------------------------------------------------------ buffer.c registered C functions
 ALLOC = ("realloc model (seq_common.h): fails or returns a fresh block of n bytes, frees the old block, "
          "keeps the element at the ghost index; all other content arbitrary")
-BC = dict(src=["buffer.c"], link=["wrap.c"], harness=["str_buffer_cfun.c"], defines=["-DSEQ_ELEM_BYTES", "-DSEQ_TRACK_REALLOC"])
+BC = dict(props=["C17", "C04"], src=["buffer.c"], link=["wrap.c"], harness=["str_buffer_cfun.c"], defines=["-DSEQ_ELEM_BYTES", "-DSEQ_TRACK_REALLOC"])
 BCA = [ALLOC, "memcpy/memmove/memset models (seq_common.h): ranges must be valid (memcpy: disjoint) - counted obligations; pointwise effect on the ghost element",
        "capi.c getters are stubs: slot 0 is a well-formed buffer, the byte view is the buffer itself or a separate readable block, integer slots return the slot's low 32 bits, number slots the slot's double, each asserts slot index < argc; janet_arity/janet_fixarity return only for an accepted argc",
        "janet_gcalloc returns a fresh block; janet_gcpressure has no effect on the buffer"]
